@@ -92,13 +92,13 @@ PROPS["C20"] = dict(level="exploration", steps=simple("^TestC20", shards_quick=4
 # ---- texts for MANIFEST.json (level, note, technique) ----
 META = {
  "C01": ("rapid PBT, round trip + independent reference decoder",
-         "Sampled search over the segment grammar and all compressor entry points / depths, on reused compressors; every emitted block is also decoded by an independent byte-at-a-time decoder. Sampling, not proof: the input space is unbounded."),
+         "Sampled search over the segment grammar and all compressor entry points / depths, on reused compressors; every emitted block is also decoded by an independent byte-at-a-time decoder. Pinned regimes for long-lived objects (exact call-count gaps around 2^8/2^16/2^17, 2^31..2^34 bytes through one object) and 9-33 MiB sources; thorough adds a native fuzz campaign (FuzzC10) and a GOARCH=386 build. Sampling, not proof: the input space is unbounded."),
  "C02": ("rapid PBT over the option matrix x delivery x reader, round-trip oracle",
          "Sampled search over options x input sizes around the block size x Write/Flush partitions or ReadFrom x reader configurations; oracle is the round trip plus a clean, repeatable end of stream. Legacy+Flush kernel-trailer ambiguity is a recorded known finding."),
  "C03": ("rapid PBT with guard-page arenas and canaries; assembly in process, portable decoder in a noasm twin process",
          "Block grammar / mutated compressor output / random / corpus inputs decoded with src, dst and dict flush against PROT_NONE pages and canaried spare capacity, in both builds; a fault becomes a recoverable panic (SetPanicOnFault). Sampling of an unbounded space."),
  "C04": ("rapid PBT, differential against an independent block decoder + metamorphic prefill relation",
-         "Every case is judged by an independent decoder written from the block format (OK => same bytes, listed error classes => error), decoded three times over different prior destination contents, in both builds."),
+         "Every case is judged by an independent decoder written from the block format (OK => same bytes, listed error classes => error), decoded three times over different prior destination contents, in both builds (thorough: also built for GOARCH=386). Pinned multi-megabyte shapes (2^20-byte literal runs, 2^32 length sums, 26-70 MiB overlapping matches, dictionary straddles). The independent decoder itself is validated against liblz4 when that is present."),
  "C05": ("structure-map mutation testing of valid frames against an independent frame parser",
          "Whenever the Reader reports a clean end of stream on a mutated frame, the independent frame implementation must accept exactly the consumed bytes with identical output. One-directional by design (rejecting is always allowed)."),
  "C06": ("crash-point enumeration: every prefix of generated frames x 6 reader configurations",
@@ -108,13 +108,13 @@ META = {
  "C08": ("stateful PBT of concurrent Writer/Reader histories in synctest bubbles with generated hook-site schedules, pool poisoning, race detector",
          "Legal histories on concurrent objects run in bubbles (deadlock / leak detection is deterministic for channel blocking) with drawn delays at 17 hook sites, poisoned pool buffers, differential against the sequential Writer, and the same campaign under the race detector and with GOMAXPROCS 1/2/16. Schedules are sampled."),
  "C09": ("rapid PBT, conformance oracle = independent strict frame parser (and golden files from the reference CLI validate that parser)",
-         "Every emitted byte stream (Writer.Write/ReadFrom, CompressingReader) must be exactly one strictly valid frame per an independent implementation of the frame specification, incl. inputs constructed so that a block's or the content's XXH32 is 0 and incompressible legacy blocks."),
+         "Every emitted byte stream (Writer.Write/ReadFrom, CompressingReader) must be exactly one strictly valid frame per an independent implementation of the frame specification, incl. inputs constructed so that a block's or the content's XXH32 is 0, blocks compressing to 1-3 bytes less than the block size, incompressible legacy blocks around the bound crossing and a stream above 4 GiB. When the reference lz4 command line tool is present, a sample of the frames is decoded by it and the independent parser is cross-checked against it on valid and mutated frames."),
  "C10": ("rapid PBT with an independent strict block validator",
-         "Every positive result of any compressor, including partial successes into short destinations, is checked against the strictest reading of the block format (end-of-block rules) and strictly decoded."),
+         "Every positive result of any compressor, including partial successes into short destinations, is checked against the strictest reading of the block format (end-of-block rules), strictly decoded, and - when liblz4 is present on the machine - decoded by the reference library into exactly len(src) bytes. Same pinned regimes as C01."),
  "C11": ("destination-length enumeration per generated source in guard arenas with canaries",
          "For each generated source every destination length 0..bound+2 (small sources) or boundary classes (large) x spare capacity is tried with the destination in a guard arena; contract clauses are checked one by one."),
  "C12": ("differential PBT: assembly decoder vs portable decoder (noasm twin process) on the same case stream",
-         "The two build configurations are compared on identical generated cases (outcome, n, bytes). Only amd64 assembly vs portable can be compared in this sandbox."),
+         "The two build configurations are compared on identical generated cases (outcome, n, bytes), including dictionaries of 4 GiB and, in the thorough tier, matches of 2 GiB and 4 GiB that are really decoded (outputs compared by digest). Only amd64 assembly vs portable (and, thorough, 386 portable) can be compared in this sandbox."),
  "C13": ("PBT + exhaustive tables against an independent XXH32; 4 GiB streams across the 2^32 boundary",
          "One-shot: all lengths 0..300 and generated data; streaming: generated op lists plus the complete (buffered 0..15 x next length) table; totals walked byte by byte across 2^32 (and 2^33)."),
  "C14": ("metamorphic PBT (fresh vs reused vs pooled-under-load compressors; sequential vs concurrent / partitioned / scheduled Writers)",
